@@ -42,6 +42,7 @@ def run(ck, tier):
     _whole(ck, p, byk)
 
     _untouched(ck, p, byk)
+    _writers(ck, p)
     from . import c02, c05
     ck.rule("R-C17-annotate", "the suffix found for a number is stored on that number's token: condense_number_suffixes does not address self.tokens after its removal with positions counted before it (rule instance of R-C02-stale after-removal) - otherwise only the first ordinal of a document keeps its suffix and a wrong suffix later in the text is never reported")
     c02.stale_use(c05._Sub(ck, "R-C17-annotate", ""), p, "R-C17-annotate")
@@ -563,3 +564,52 @@ def _untouched(ck, p, byk):
         ck.refuted(rule, "Document::parse:before-number-suffixes", f.loc(ln), "%s runs before condense_number_suffixes and matches the bare word(s) %s: an ordinal like `2st.` loses its suffix word to that pass (merged with its neighbour), so the number-suffix rule never sees it or sees it with the wrong extent" % (nm, hit))
     else:
         ck.proved(rule, "Document::parse:before-number-suffixes", f.span, "%d passes run before condense_number_suffixes; none names st / nd / rd / th among its string constants" % n_pass)
+
+
+# ---------------------------------------------------------------------------------------------------
+def _writers(ck, p):
+    """The rule judges the suffix against Number.value.  That value is the number that is written only
+    as long as nobody but the lexer produces it: a pass behind the lexer that builds or rewrites Number
+    values (folds a sign in, scales, merges) makes the rule judge - or, for a value it does not handle,
+    skip - something else than the digits in the text."""
+    rule = "R-C17-writers"
+    ck.rule(rule, "who may write a number token's value: Number values are built only by the number lexers (harper_core::lexing) and the type's own module (Default / serde); behind the lexer only the ordinal suffix is written, and only by Document::condense_number_suffixes - no parser, Document pass or rule constructs a Number or assigns its value / radix / precision")
+    n = 0
+    bad, new_lexers = [], []
+    for f in sorted(p.fns.values(), key=lambda g: g.name):
+        if not f.name.startswith("harper_core::") or f.name.startswith("harper_core::number::"):
+            continue
+        for b in f.blocks:
+            if b["cleanup"]:
+                continue
+            for sx in b["s"]:
+                if sx["k"] != "assign":
+                    continue
+                rv = sx["rv"]
+                what = None
+                if rv["k"] == "agg" and str(rv.get("name", "")).endswith("number::Number"):
+                    what = "builds a Number"
+                fl = [e[2] for e in sx["lhs"][1:] if isinstance(e, list) and e[0] == "f"]
+                if fl and fl[-1] in ("value", "radix", "precision") and "Number" in (f.local_tystr(sx["lhs"][0]) or "") + str(sx["lhs"]):
+                    what = "assigns Number.%s" % fl[-1]
+                if fl and fl[-1] == "suffix" and not f.name.endswith("::condense_number_suffixes"):
+                    what = "assigns Number.suffix"
+                if what is None:
+                    if fl and fl[-1] == "suffix":
+                        n += 1
+                    continue
+                n += 1
+                if f.name.startswith("harper_core::lexing::"):
+                    if last(f.name) not in ("lex_number", "lex_hex_number"):
+                        new_lexers.append((f, sx["ln"], what))
+                else:
+                    bad.append((f, sx["ln"], what))
+    ck.floor(rule, "writes of number values and suffixes in harper_core", n, 2)
+    for f, ln, what in bad[:3]:
+        ck.saw(f)
+        ck.refuted(rule, "%s:%s" % (keyname(p, f), what.split()[0]), f.loc(ln), "%s %s behind the lexer: the value the number-suffix rule judges is then not the number written in the text (a sign folded in makes it negative and the rule skips it; a scaled or merged value gets another suffix demanded)" % (keyname(p, f), what))
+    for f, ln, what in new_lexers[:3]:
+        ck.saw(f)
+        ck.undecided(rule, "%s:%s" % (keyname(p, f), what.split()[0]), f.loc(ln), "a lexer function other than lex_number / lex_hex_number %s; whether its value is the number written is not decided" % what)
+    if not bad and not new_lexers:
+        ck.proved(rule, "number-writers", "", "Number values are built only in lex_number / lex_hex_number (and the type's own module); the suffix is assigned only in condense_number_suffixes")
